@@ -150,7 +150,7 @@ def _run_case(case):
         # identities on the library's own output: 1e-9 in the moderate range; in the extreme corner of the quantifier (rates up to 1e4
         # with t up to 100, frequencies down to 1e-6) what double precision arithmetic can deliver: the round-off of any exp(Qt)
         # grows with ||Q|| t, that of the symmetrised eigendecomposition with max(pi)/min(pi)
-        tol_id = max(1e-9, 20 * 2.2e-16 * qnorm * t, 1e2 * 2.2e-16 * cond2)
+        tol_id = max(1e-9, 100 * 2.2e-16 * qnorm * t, 1e2 * 2.2e-16 * cond2)
         if np.abs(Pi.sum(-1) - 1).max() > tol_id:
             V.append(tt.viol("C04:p_t:rowsum:" + kind, "row of P(%g) sums to 1%+.3g" % (t, np.abs(Pi.sum(-1) - 1).max()), spec=spec, t=t))
         if Pi.min() < -tol_id:
@@ -185,7 +185,7 @@ def _run_case(case):
         Pst = model.p_t(torch.tensor([[s_ + t_]], dtype=torch.float64)).detach().numpy()[0, 0]
         C["identity_checks"] += 1
         d = np.abs(Pst - P[0] @ P[len(ts) - 2]).max()
-        if d > max(1e-9, 20 * 2.2e-16 * qnorm * (s_ + t_), 1e2 * 2.2e-16 * cond2):
+        if d > max(1e-9, 100 * 2.2e-16 * qnorm * (s_ + t_), 1e2 * 2.2e-16 * cond2):
             V.append(tt.viol("C04:p_t:semigroup:" + kind, "P(s+t) != P(s)P(t) for s=%g t=%g (%.3g)" % (s_, t_, d), spec=spec))
     # normalisation: one expected substitution per unit time
     rate = -(pi_lib * np.diag(Qn)).sum()
